@@ -174,8 +174,15 @@ Definition sp (n : nat) (x y : N) : list Z :=
                 _ = cur.circuit
                 reads.append(i)
             k = rng.randint(1, len(gl) - i)
-            cur = cur.with_gates_applied(gl[i:i + k])
-            batches.append(k)
+            if (rng.random() < 0.6 and isinstance(cur, ComputationalBasisState)
+                    and gl[i].name in ("X", "Y", "Z", "Pauli")):
+                # the single-gate entry point of the bookkeeping
+                cur = cur.with_pauli_gate_applied(gl[i])
+                k = 1
+                batches.append("pauli")
+            else:
+                cur = cur.with_gates_applied(gl[i:i + k])
+                batches.append(k)
             i += k
         ref = O.circuit_unitary(gl, n) @ vec_of(s0, n)
         inp = {"n": n, "bits": s0.bits, "batches": batches, "circuit_read_before_gate": reads,
